@@ -1,0 +1,83 @@
+//! Verification hook (compiled only with `--cfg html5ever_verif`): a read-only
+//! dump of the complete tokenizer state. The struct is destructured
+//! exhaustively so that a new field breaks this build instead of silently
+//! weakening the state key of the explorers in /verif.
+use super::{TokenSink, Tokenizer};
+
+#[derive(Debug, Clone, PartialEq, Eq, Hash)]
+pub struct VerifTok {
+    pub state: String,
+    pub reconsume: bool,
+    pub current_char: char,
+    pub ignore_lf: bool,
+    pub discard_bom: bool,
+    pub at_eof: bool,
+    pub char_ref: Option<String>,
+    pub tag_kind: String,
+    pub tag_name: String,
+    pub self_closing: bool,
+    pub had_duplicate_attributes: bool,
+    pub attrs: Vec<(String, String)>,
+    pub attr_name: String,
+    pub attr_value: String,
+    pub comment: String,
+    pub doctype: String,
+    pub last_start_tag: Option<String>,
+    pub temp_buf: String,
+    pub current_line: u64,
+}
+
+impl<Sink: TokenSink> Tokenizer<Sink> {
+    pub fn verif_dump(&self) -> VerifTok {
+        let Tokenizer {
+            opts: _,
+            sink: _,
+            state,
+            at_eof,
+            char_ref_tokenizer,
+            current_char,
+            reconsume,
+            ignore_lf,
+            discard_bom,
+            current_tag_kind,
+            current_tag_name,
+            current_tag_self_closing,
+            current_tag_had_duplicate_attributes,
+            current_tag_attrs,
+            current_attr_name,
+            current_attr_value,
+            current_comment,
+            current_doctype,
+            last_start_tag_name,
+            temp_buf,
+            state_profile: _,
+            time_in_sink: _,
+            current_line,
+        } = self;
+        VerifTok {
+            state: format!("{:?}", state.get()),
+            reconsume: reconsume.get(),
+            current_char: current_char.get(),
+            ignore_lf: ignore_lf.get(),
+            discard_bom: discard_bom.get(),
+            at_eof: at_eof.get(),
+            char_ref: char_ref_tokenizer.borrow().as_ref().map(|c| format!("{c:?}")),
+            tag_kind: format!("{:?}", current_tag_kind.get()),
+            tag_name: current_tag_name.borrow().to_string(),
+            self_closing: current_tag_self_closing.get(),
+            had_duplicate_attributes: current_tag_had_duplicate_attributes.get(),
+            attrs: current_tag_attrs
+                .borrow()
+                .iter()
+                .map(|a| (a.name.local.to_string(), a.value.to_string()))
+                .collect(),
+            attr_name: current_attr_name.borrow().to_string(),
+            attr_value: current_attr_value.borrow().to_string(),
+            comment: current_comment.borrow().to_string(),
+            doctype: format!("{:?}", current_doctype.borrow()),
+            last_start_tag: last_start_tag_name.borrow().as_ref().map(|n| n.to_string()),
+            temp_buf: temp_buf.borrow().to_string(),
+            current_line: current_line.get(),
+        }
+    }
+}
